@@ -2,6 +2,7 @@ import Driver.Enc
 import Driver.Prim
 import Driver.Disk
 import Driver.Fs
+import Driver.TestGen
 
 def main (args : List String) : IO UInt32 := do
   match args with
@@ -13,5 +14,6 @@ def main (args : List String) : IO UInt32 := do
   | ["fs", "ref"] => Driver.lineLoop Driver.Fs.refStepX GooseVerif.Model.Fs.Ref.empty; return 0
   | ["fs", "mem"] => Driver.lineLoop Driver.Fs.memStep GooseVerif.Model.Fs.MemFs.empty; return 0
   | ["fs", "dir"] => Driver.lineLoop Driver.Fs.dirStep GooseVerif.Model.Fs.Os.empty; return 0
+  | ["tg"] => Driver.lineLoop Driver.TestGen.step (); return 0
   | ["wt"] => Driver.lineLoop Driver.Prim.wtStep (); return 0
   | _ => IO.eprintln "usage: driver <enc|prim|wt>"; return 2
